@@ -131,6 +131,39 @@ def run(ctx):
 
     adjacency_name_maps_only_keyed(ctx, prog, flows, "R-C11-6", ("algorithms::cluster",), "so a node without edges gets no coefficient / triangle count and the answer for all nodes disagrees with the answer for a subset")
 
+    # ------------------------------------------------------------------ R-C11-7
+    # "restricting to a subset returns the full computation's values": the weight normaliser (largest edge weight of
+    # the GRAPH) must not depend on the subset
+    ctx.rule("R-C11-7", "the weight normaliser handed to get_normalized_edge_weight derives from get_all_edges() alone: not from node_names, not from a per-node edge accessor")
+    n7 = 0
+    for p_ in sorted(prog.bodies):
+        b_ = prog.bodies[p_]
+        root_ = b_
+        while root_.kind == "closure":
+            root_ = prog.bodies[root_.item["parent"]]
+        if not root_.short.startswith("algorithms::cluster"):
+            continue
+        fl_ = flows.of(b_)
+        for t_ in b_.calls():
+            if not (t_.callee and t_.callee.short.endswith("get_normalized_edge_weight") and len(t_.args) >= 3):
+                continue
+            n7 += 1
+            sl_ = flows.slice(b_.path, fl_._op_reads(t_.args[2]), up=True, down=False, data_only=True)
+            cal_ = set()
+            subset_ = False
+            for (bp_, nd_) in sl_:
+                bb_ = prog.bodies[bp_]
+                if nd_[0] == "CALL":
+                    tt_ = bb_.blocks[nd_[1]].term
+                    if tt_.callee:
+                        cal_.add(tt_.callee.short.split("::")[-1])
+                elif nd_[0] in ("L", "LF") and isinstance(nd_[1], int) and 1 <= nd_[1] <= bb_.arg_count and bb_.local_name(nd_[1]) == "node_names":
+                    subset_ = True
+            other_ = sorted(cal_ & {"get_edges_for_nodes", "get_edges_for_node", "get_out_edges_for_node", "get_in_edges_for_node", "get_out_edges_for_nodes", "get_in_edges_for_nodes", "get_edge", "get_edges", "get_subgraph"})
+            ctx.require("get_all_edges" in cal_ and not other_ and not subset_, "R-C11-7", "normaliser|%s" % b_.short, "the normaliser in %s is the largest weight of get_all_edges()" % b_.short.split("::", 2)[-1],
+                        "the weight normaliser used in %s derives from %s%s instead of get_all_edges() alone: a coefficient computed for a subset differs from the same node's value in the full computation (and can exceed 1)" % (b_.short, other_ or sorted(cal_)[:4], " and from node_names" if subset_ else ""), loc_str(t_.span))
+    ctx.floor("R-C11-7", "normalised_weight_lookups", n7, 2)
+
     # ------------------------------------------------------------------ R-C11-3
     ctx.rule("R-C11-3", "results of the subset-taking functions depend (data flow, not merely validation) on node_names")
     for sfx in ("cluster::clustering", "cluster::triangles", "cluster::generalized_degree", "cluster::average_clustering", "square::square_clustering"):
